@@ -141,13 +141,14 @@ PROPS = {
         "assumptions": ["that each arm's right-hand side is the right AxCut statement (e.g. producer-first vs consumer-first) is not decided"],
     },
     "C19": {
-        "rules": [sharing.rule_share, sharing.rule_once],
+        "rules": [sharing.rule_share, sharing.rule_once, sharing.rule_liftstore],
         "text": "Sharing discipline decided by symbolic execution of the translation functions' MIR over lazily refined shapes (finite "
                 "variant sets, no solver): a consumer or statement that reaches two or more consuming uses is the result of "
                 "share()/lift(), or is pinned to a size-bounded shape, or is iterated at most once. All fun2core functions with a "
                 "consumer parameter and all core2axcut functions with a statement parameter are covered, so a new duplicating site "
                 "is found, not only the three known ones. Inside lift() itself the shared statement (or a clone of it) is translated "
-                "once per path (R-ONCE): a second, throw-away translation repeats every nested lift.",
+                "once per path (R-ONCE): a second, throw-away translation repeats every nested lift. The collection of lifted definitions is "
+                "only ever added to by the translation (R-LIFTSTORE): looking a lifted body up and copying it to a use site undoes the sharing.",
         "assumptions": ["the degree of the polynomial is not decided; growth from other sources than duplicated continuations was not found by reading"],
     },
     "C02": {
